@@ -624,3 +624,260 @@ package websocket
 //@   disjoint behaviours
 //@   loop 1:
 //@     invariant -1 <= $rangeindex && $rangeindex < len(h.Modules)
+
+// ---------------------------------------------------------------------------------------------
+// The Handler interface as seen by the connection loop: every method is an abstract event that may
+// change anything (the concrete RealtimeHandler methods are proved against their own contracts).
+// ---------------------------------------------------------------------------------------------
+
+//@ func (websocket.Handler).HandlePing
+//@   event
+//@   modifies all *
+//@   preserves websocket.handler., cell:
+//@   allocates
+
+//@ func (websocket.Handler).HandlePingResponse
+//@   event
+//@   modifies all *
+//@   preserves websocket.handler., cell:
+//@   allocates
+
+//@ func (websocket.Handler).HandleSignedLatency
+//@   event
+//@   modifies all *
+//@   preserves websocket.handler., cell:
+//@   allocates
+
+//@ func (websocket.Handler).HandleEntityAdd
+//@   event
+//@   modifies all *
+//@   preserves websocket.handler., cell:
+//@   allocates
+
+//@ func (websocket.Handler).HandleEntityDelete
+//@   event
+//@   modifies all *
+//@   preserves websocket.handler., cell:
+//@   allocates
+
+//@ func (websocket.Handler).HandleCustomMessage
+//@   event
+//@   modifies all *
+//@   preserves websocket.handler., cell:
+//@   allocates
+
+//@ func (websocket.Handler).HandleEntityComponentTypeAdd
+//@   event
+//@   modifies all *
+//@   preserves websocket.handler., cell:
+//@   allocates
+
+//@ func (websocket.Handler).HandleEntityComponentGetName
+//@   event
+//@   modifies all *
+//@   preserves websocket.handler., cell:
+//@   allocates
+
+//@ func (websocket.Handler).HandleEntityComponentGetID
+//@   event
+//@   modifies all *
+//@   preserves websocket.handler., cell:
+//@   allocates
+
+//@ func (websocket.Handler).HandleEntityComponentAdd
+//@   event
+//@   modifies all *
+//@   preserves websocket.handler., cell:
+//@   allocates
+
+//@ func (websocket.Handler).HandleEntityComponentDelete
+//@   event
+//@   modifies all *
+//@   preserves websocket.handler., cell:
+//@   allocates
+
+//@ func (websocket.Handler).HandleEntityComponentList
+//@   event
+//@   modifies all *
+//@   preserves websocket.handler., cell:
+//@   allocates
+
+//@ func (websocket.Handler).HandleEntityComponentSubscribe
+//@   event
+//@   modifies all *
+//@   preserves websocket.handler., cell:
+//@   allocates
+
+//@ func (websocket.Handler).HandleEntityComponentUnsubscribe
+//@   event
+//@   modifies all *
+//@   preserves websocket.handler., cell:
+//@   allocates
+
+//@ func (websocket.Handler).HandleReceipt
+//@   event
+//@   modifies all *
+//@   preserves websocket.handler., cell:
+//@   allocates
+
+//@ func (websocket.Handler).HandleEntityUpdatePose
+//@   event
+//@   modifies all *
+//@   preserves websocket.handler., cell:
+//@   allocates
+
+//@ func (websocket.Handler).HandleEntityComponentUpdate
+//@   event
+//@   modifies all *
+//@   preserves websocket.handler., cell:
+//@   allocates
+
+//@ func (websocket.Handler).HandleParticipantJoin
+//@   event
+//@   modifies all *
+//@   preserves websocket.handler., cell:
+//@   allocates
+
+//@ func (websocket.Handler).HandleWithModule
+//@   event
+//@   modifies all *
+//@   preserves websocket.handler., cell:
+//@   allocates
+
+//@ func (websocket.Handler).HandleDisconnect
+//@   event
+//@   modifies all *
+//@   preserves websocket.handler., cell:
+//@   allocates
+
+//@ func (websocket.Handler).HandleConnect
+//@   event
+//@   modifies all *
+//@   preserves websocket.handler., cell:
+//@   allocates
+
+//@ func (websocket.Handler).SendSyncClock
+//@   event
+//@   modifies all *
+//@   preserves websocket.handler., cell:
+//@   allocates
+
+//@ func (websocket.Handler).CurrentParticipant
+//@   modifies nothing
+//@   allocates
+
+//@ func (websocket.Handler).CurrentSession
+//@   modifies nothing
+//@   allocates
+
+//@ func (websocket.Handler).GetModules
+//@   modifies nothing
+//@   allocates
+
+//@ func (websocket.Handler).GetClientID
+//@   modifies nothing
+//@   allocates
+
+//@ func (websocket.Handler).IdleTimeout
+//@   modifies nothing
+//@   allocates
+
+//@ func (websocket.Handler).SyncClockInterval
+//@   modifies nothing
+//@   allocates
+
+//@ func (websocket.Handler).Sender
+//@   modifies nothing
+//@   allocates
+
+//@ func (websocket.Handler).Receiver
+//@   modifies nothing
+//@   allocates
+
+//@ func (websocket.Handler).GetSessions
+//@   modifies nothing
+//@   allocates
+
+//@ func (websocket.Handler).Close
+//@   modifies nothing
+//@   allocates
+
+//@ func (*websocket.handler).handleMessage
+//@   property C04
+//@   requires h.Handler != nil && h.dispatcher != nil && msgtype(msg) != nil
+//@   let T = msgtype(msg)
+//@   behaviour ping:
+//@     assumes T == enum(hagallpb.MsgType_MSG_TYPE_PING_REQUEST)
+//@     emits {C04} [HandlePing(h.Handler, _, responder, msg)]
+//@   behaviour pingresponse:
+//@     assumes T == enum(hagallpb.MsgType_MSG_TYPE_PING_RESPONSE)
+//@     emits {C04} [HandlePingResponse(h.Handler, _, responder, msg)]
+//@   behaviour signedlatency:
+//@     assumes T == enum(hagallpb.MsgType_MSG_TYPE_SIGNED_LATENCY_REQUEST)
+//@     emits {C04} [HandleSignedLatency(h.Handler, _, responder, msg)]
+//@   behaviour participantjoin:
+//@     assumes T == enum(hagallpb.MsgType_MSG_TYPE_PARTICIPANT_JOIN_REQUEST)
+//@     emits {C04} [HandleParticipantJoin(h.Handler, _, _, responder, msg)]
+//@   behaviour entityadd:
+//@     assumes T == enum(hagallpb.MsgType_MSG_TYPE_ENTITY_ADD_REQUEST)
+//@     emits {C04} [HandleEntityAdd(h.Handler, _, responder, msg)]
+//@   behaviour entitydelete:
+//@     assumes T == enum(hagallpb.MsgType_MSG_TYPE_ENTITY_DELETE_REQUEST)
+//@     emits {C04} [HandleEntityDelete(h.Handler, _, responder, msg)]
+//@   behaviour entityupdatepose:
+//@     assumes T == enum(hagallpb.MsgType_MSG_TYPE_ENTITY_UPDATE_POSE)
+//@     emits {C04} [HandleEntityUpdatePose(h.Handler, _, msg)]
+//@   behaviour custommessage:
+//@     assumes T == enum(hagallpb.MsgType_MSG_TYPE_CUSTOM_MESSAGE)
+//@     emits {C04} [HandleCustomMessage(h.Handler, _, responder, msg)]
+//@   behaviour entitycomponenttypeadd:
+//@     assumes T == enum(hagallpb.MsgType_MSG_TYPE_ENTITY_COMPONENT_TYPE_ADD_REQUEST)
+//@     emits {C04} [HandleEntityComponentTypeAdd(h.Handler, _, responder, msg)]
+//@   behaviour entitycomponentgetname:
+//@     assumes T == enum(hagallpb.MsgType_MSG_TYPE_ENTITY_COMPONENT_TYPE_GET_NAME_REQUEST)
+//@     emits {C04} [HandleEntityComponentGetName(h.Handler, _, responder, msg)]
+//@   behaviour entitycomponentgetid:
+//@     assumes T == enum(hagallpb.MsgType_MSG_TYPE_ENTITY_COMPONENT_TYPE_GET_ID_REQUEST)
+//@     emits {C04} [HandleEntityComponentGetID(h.Handler, _, responder, msg)]
+//@   behaviour entitycomponentadd:
+//@     assumes T == enum(hagallpb.MsgType_MSG_TYPE_ENTITY_COMPONENT_ADD_REQUEST)
+//@     emits {C04} [HandleEntityComponentAdd(h.Handler, _, responder, msg)]
+//@   behaviour entitycomponentdelete:
+//@     assumes T == enum(hagallpb.MsgType_MSG_TYPE_ENTITY_COMPONENT_DELETE_REQUEST)
+//@     emits {C04} [HandleEntityComponentDelete(h.Handler, _, responder, msg)]
+//@   behaviour entitycomponentlist:
+//@     assumes T == enum(hagallpb.MsgType_MSG_TYPE_ENTITY_COMPONENT_LIST_REQUEST)
+//@     emits {C04} [HandleEntityComponentList(h.Handler, _, responder, msg)]
+//@   behaviour entitycomponentupdate:
+//@     assumes T == enum(hagallpb.MsgType_MSG_TYPE_ENTITY_COMPONENT_UPDATE)
+//@     emits {C04} [HandleEntityComponentUpdate(h.Handler, _, msg)]
+//@   behaviour entitycomponentsubscribe:
+//@     assumes T == enum(hagallpb.MsgType_MSG_TYPE_ENTITY_COMPONENT_TYPE_SUBSCRIBE_REQUEST)
+//@     emits {C04} [HandleEntityComponentSubscribe(h.Handler, _, responder, msg)]
+//@   behaviour entitycomponentunsubscribe:
+//@     assumes T == enum(hagallpb.MsgType_MSG_TYPE_ENTITY_COMPONENT_TYPE_UNSUBSCRIBE_REQUEST)
+//@     emits {C04} [HandleEntityComponentUnsubscribe(h.Handler, _, responder, msg)]
+//@   behaviour receipt:
+//@     assumes T == enum(hagallpb.MsgType_MSG_TYPE_RECEIPT_REQUEST)
+//@     emits {C04} [HandleReceipt(h.Handler, _, responder, msg)]
+//@   behaviour other:
+//@     assumes !(T == enum(hagallpb.MsgType_MSG_TYPE_PING_REQUEST)) && !(T == enum(hagallpb.MsgType_MSG_TYPE_PING_RESPONSE)) && !(T == enum(hagallpb.MsgType_MSG_TYPE_SIGNED_LATENCY_REQUEST)) && !(T == enum(hagallpb.MsgType_MSG_TYPE_PARTICIPANT_JOIN_REQUEST)) && !(T == enum(hagallpb.MsgType_MSG_TYPE_ENTITY_ADD_REQUEST)) && !(T == enum(hagallpb.MsgType_MSG_TYPE_ENTITY_DELETE_REQUEST)) && !(T == enum(hagallpb.MsgType_MSG_TYPE_ENTITY_UPDATE_POSE)) && !(T == enum(hagallpb.MsgType_MSG_TYPE_CUSTOM_MESSAGE)) && !(T == enum(hagallpb.MsgType_MSG_TYPE_ENTITY_COMPONENT_TYPE_ADD_REQUEST)) && !(T == enum(hagallpb.MsgType_MSG_TYPE_ENTITY_COMPONENT_TYPE_GET_NAME_REQUEST)) && !(T == enum(hagallpb.MsgType_MSG_TYPE_ENTITY_COMPONENT_TYPE_GET_ID_REQUEST)) && !(T == enum(hagallpb.MsgType_MSG_TYPE_ENTITY_COMPONENT_ADD_REQUEST)) && !(T == enum(hagallpb.MsgType_MSG_TYPE_ENTITY_COMPONENT_DELETE_REQUEST)) && !(T == enum(hagallpb.MsgType_MSG_TYPE_ENTITY_COMPONENT_LIST_REQUEST)) && !(T == enum(hagallpb.MsgType_MSG_TYPE_ENTITY_COMPONENT_UPDATE)) && !(T == enum(hagallpb.MsgType_MSG_TYPE_ENTITY_COMPONENT_TYPE_SUBSCRIBE_REQUEST)) && !(T == enum(hagallpb.MsgType_MSG_TYPE_ENTITY_COMPONENT_TYPE_UNSUBSCRIBE_REQUEST)) && !(T == enum(hagallpb.MsgType_MSG_TYPE_RECEIPT_REQUEST))
+//@     emits {C04} []
+//@   complete behaviours
+//@   disjoint behaviours
+//@   loop 1:
+//@     invariant -1 <= $rangeindex
+//@     emits {C04,C16} [HandleWithModule(h.Handler, _, $m, responder, msg)]
+
+//@ func (*websocket.RealtimeHandler).HandleWithModule
+//@   property C04, C16
+//@   requires m != nil
+//@   behaviour not_joined:
+//@     assumes !joined(h)
+//@     ensures {C04,C03} result == nil && unchanged_world()
+//@     emits {C04,C03} []
+//@   behaviour joined:
+//@     assumes joined(h)
+//@     emits {C04,C16} [HandleMsg(m, _, respond, msg)]
+//@   complete behaviours
+//@   disjoint behaviours
